@@ -98,6 +98,17 @@ func confManyFiles() rigConf {
 	return c
 }
 
+// confChunked: one 60-byte file sent in 10-byte chunks, two to a payload, by two threads: a failed
+// payload leaves the receiver with a hole in the middle of the file, i.e. with several missing
+// ranges of which one is longer than a chunk.
+func confChunked() rigConf {
+	c := confTwoThreads()
+	c.BinSize = 20
+	c.ChunkSize = 10
+	c.Files = []rigFile{{Name: "g/a", Data: strings.Repeat("A", 20) + strings.Repeat("B", 20) + strings.Repeat("C", 20), Age: 400}}
+	return c
+}
+
 // confOneGroup: four files of one ordered group; with two threads a failure of the first
 // payload leaves the receiver with later files complete (held) while the first is not.
 func confOneGroup() rigConf {
@@ -310,7 +321,10 @@ func TestC03Env(t *testing.T) {
 	d := 2
 	cron := confTwoThreads()
 	cron.Rerun = true // a one-shot sender that exits with a failed file left is invoked again
-	scs := []envScenario{esc("3 files, 2 threads, one-shot invoked every minute", cron, nil), esc("2 files, 1 thread, daemon", asDaemon(confOneThread()), nil)}
+	chunked := confChunked()
+	chunked.Rerun = true
+	scs := []envScenario{esc("3 files, 2 threads, one-shot invoked every minute", cron, nil), esc("2 files, 1 thread, daemon", asDaemon(confOneThread()), nil),
+		esc("1 file in 10-byte chunks, payloads of 2 chunks, 2 threads, one-shot invoked every minute", chunked, nil)}
 	if vh.Thorough() {
 		d = 3
 		scs = scs[1:]
@@ -486,6 +500,7 @@ func TestC07Env(t *testing.T) {
 		esc("2 files, 1 thread, daemon", asDaemon(confOneThread()), armC02),
 		esc("4 files of one group, 2 threads, one-shot", confOneGroup(), armC02),
 		esc("3 files, 2 threads, one-shot, the receiver lists the parts of a partial file in descending order", reverseParts(confTwoThreads()), armC02),
+		esc("1 file in 10-byte chunks, payloads of 2 chunks, 2 threads, one-shot", confChunked(), armC02),
 	}
 	runEnvProperty(t, "C07", "sender crash at every sender action (E-ENV)", scs, d,
 		func(ev vh.EnvEvent, plan []vh.Deviation) []string {
